@@ -1,5 +1,70 @@
+/-
+  Driver/Rt: JSON glue for the runtime layers (L4 scripted operations, L5 cache histories,
+  L3 scans).
+-/
 import Lean.Data.Json
-open Lean
+import SqlairModel.Spec.L4
+import Driver.Json
+
+open Lean Sqlair Sqlair.Rt
+
 namespace Driver
-def handleRt (_ : Json) : Except String Json := throw "rt not built"
+
+def optInt (j : Json) (k : String) : Option Nat :=
+  match j.getObjVal? k with
+  | .ok v => match v.getInt? with
+    | .ok i => if i < 0 then none else some i.toNat
+    | .error _ => none
+  | .error _ => none
+
+def strList (j : Json) (k : String) : List String :=
+  (optList j k).toList.filterMap fun x => x.getStr?.toOption
+
+def natList (j : Json) (k : String) : List Nat :=
+  (optList j k).toList.filterMap fun x => x.getNat?.toOption
+
+def gb (j : Json) (k : String) : Bool := (getBool j k).toOption.getD false
+def gs (j : Json) (k : String) : String := (getStr j k).toOption.getD ""
+def gn (j : Json) (k : String) : Nat := (optNat j k).getD 0
+
+def parseL4Case (j : Json) : Rt.Case :=
+  { hasOutputs := gb j "hasOutputs", path := gs j "path", ctx := gs j "ctx", nrows := gn j "nrows",
+    badRow := optInt j "badRow", fetchErrAt := optInt j "fetchErrAt", closeErr := gb j "closeErr",
+    prepareErr := gb j "prepareErr", runErr := gb j "runErr", txEnd := gs j "txEnd",
+    finishers := strList j "finishers", concurrent := gn j "concurrent", op := gs j "op",
+    dests := gs j "dests", calls := strList j "calls", cancelAt := optInt j "cancelAt" }
+
+def parseL4Obs (j : Json) : Rt.Obs :=
+  { returns := strList j "returns", events := strList j "events", eventCtx := strList j "eventCtx",
+    eventConn := natList j "eventConn", inUse := gn j "inUse", openRows := gn j "openRows",
+    doubleClose := gn j "doubleClose", closedUse := gn j "closedUse", stored := gn j "stored",
+    priorKept := gb j "priorKept", appended := natList j "appended", outcome := gs j "outcome",
+    finish := strList j "finish", winners := gn j "winners" }
+
+def predJson (p : Rt.Pred) : Json :=
+  Json.mkObj [("returns", Json.arr (p.returns.map Json.str).toArray),
+    ("events", Json.arr (p.log.map (fun e => Json.str e.render)).toArray),
+    ("inUse", (p.inUse : Json)), ("stored", (p.stored : Json)),
+    ("appended", Json.arr (p.appended.map (fun (n : Nat) => (n : Json))).toArray),
+    ("outcome", Json.str p.outcome), ("finish", Json.arr (p.finish.map Json.str).toArray)]
+
+def handleL4 (j : Json) : Except String Json := do
+  let c := parseL4Case (← j.getObjVal? "case")
+  let o := parseL4Obs (← j.getObjVal? "obs")
+  let p := predict c
+  let ds := diffs c p o
+  pure (Json.mkObj
+    [("model", predJson p),
+     ("agree", Json.bool ds.isEmpty),
+     ("affects", Json.arr (ds.map (fun d => Json.str d.1)).eraseDups.toArray),
+     ("diff", Json.str (String.intercalate "; " (ds.map (·.2)))),
+     ("c12", Json.bool (holdsC12 c o)), ("c13", Json.bool (holdsC13 c o)),
+     ("c14", Json.bool (holdsC14 c o)), ("c15", Json.bool (holdsC15 c o)),
+     ("c20", Json.bool (holdsC20 c o))])
+
+def handleRt (j : Json) : Except String Json := do
+  match gs j "sub" with
+  | "l4" => handleL4 j
+  | s => throw s!"unknown runtime sub-layer {s}"
+
 end Driver
